@@ -494,51 +494,70 @@ func TestC20_registry_lifecycle(t *testing.T) {
 	})
 }
 
-// gauges are forwarded with the supplier's value (one deterministic probe per backend and prefix)
+// gauges are forwarded with the supplier's value (enumerated probes per backend, prefix, id, value)
+type c20GCase struct {
+	Backend string  `json:"backend"`
+	Prefix  string  `json:"prefix"`
+	ID      string  `json:"id"`
+	Value   float64 `json:"value"`
+}
+
+func runC20G(_ *testing.T, c c20GCase) kit.Outcome {
+	b, err := newBackend(c.Backend, c.Prefix, 200*time.Microsecond)
+	if err != nil {
+		return kit.Outcome{Harness: err.Error()}
+	}
+	defer b.close()
+	var polled atomic.Int64
+	v := c.Value
+	b.reg.RegisterGauge(c.ID, func() (float64, bool) { polled.Add(1); return v, true })
+	b.reg.Start()
+	name := b.prefix + strings.TrimPrefix(c.ID, ".")
+	ok := waitFor(20*time.Second, func() bool {
+		if c.Backend == "gometrics" {
+			g, is := b.gmReg.Get(name).(gm.GaugeFloat64)
+			return is && g.Value() == v
+		}
+		_ = b.client.Flush()
+		for _, l := range b.cap.take() {
+			if n, val, ty, ok := parseStatsd(l); ok && n == name && ty == "g" && val == v {
+				return true
+			}
+		}
+		return false
+	})
+	if !ok {
+		// the clock alone proves nothing: distinguish "polled but not forwarded" (a violation
+		// whatever the load) from "never polled yet"
+		n := polled.Load()
+		hasPoller := strings.Contains(allStacks(), "MetricRegistry).run")
+		stopRegistry(b.reg)
+		switch {
+		case n >= 3:
+			return kit.Viol(c.Backend+":gauge", "gauge %q (prefix %q) was polled %d times with value %v but the backend never showed it as %q", c.ID, c.Prefix, n, v, name)
+		case !hasPoller:
+			return kit.Viol(c.Backend+":start-no-poller", "after Start no goroutine is inside the registry's poll loop (gauge %q never polled)", c.ID)
+		default:
+			return kit.Outcome{Harness: "gauge not polled within 20 s although a poller exists (inconclusive)"}
+		}
+	}
+	stopRegistry(b.reg)
+	return kit.Outcome{NonTrivial: true}
+}
+
 func TestC20_registry_gauges(t *testing.T) {
 	kit.RequireMode(t, "std")
 	if kit.Replay != "" {
-		t.Skip("no replay files")
+		kit.Check(t, kit.Prop[c20GCase]{ID: "C20", Run: runC20G})
+		return
 	}
-	type gc struct {
-		Backend, Prefix, ID string
-		Value               float64
-	}
-	d := kit.NewDirect[gc](t, "C20", "enumerated: backend x prefix x gauge id (with/without leading dot) x value; after Start the backend must show a gauge prefix+ID with the supplier's value")
+	d := kit.NewDirect[c20GCase](t, "C20", "enumerated: backend x prefix x gauge id (with/without leading dot) x value; after Start the backend must show a gauge prefix+ID with the supplier's value")
 	for _, backend := range []string{"gometrics", "datadog"} {
 		for _, prefix := range []string{"pfx", "pfx.", "a.b."} {
 			for _, id := range []string{"limit", ".limit", "x.y"} {
 				for _, v := range []float64{0, 7, 123.5} {
-					c := gc{backend, prefix, id, v}
-					out := func() kit.Outcome {
-						b, err := newBackend(backend, prefix, 200*time.Microsecond)
-						if err != nil {
-							return kit.Outcome{Harness: err.Error()}
-						}
-						defer b.close()
-						b.reg.RegisterGauge(id, func() (float64, bool) { return v, true })
-						b.reg.Start()
-						name := b.prefix + strings.TrimPrefix(id, ".")
-						ok := waitFor(20*time.Second, func() bool {
-							if backend == "gometrics" {
-								g, is := b.gmReg.Get(name).(gm.GaugeFloat64)
-								return is && g.Value() == v
-							}
-							_ = b.client.Flush()
-							for _, l := range b.cap.take() {
-								if n, val, ty, ok := parseStatsd(l); ok && n == name && ty == "g" && val == v {
-									return true
-								}
-							}
-							return false
-						})
-						stopRegistry(b.reg)
-						if !ok {
-							return kit.Viol(backend+":gauge", "gauge %q (prefix %q) with value %v did not show up in the backend as %q within 20 s of polling every 0.2 ms", id, prefix, v, name)
-						}
-						return kit.Outcome{NonTrivial: true}
-					}()
-					if !d.Account(c, out) {
+					c := c20GCase{backend, prefix, id, v}
+					if !d.Account(c, runC20G(t, c)) {
 						return
 					}
 				}
